@@ -46,9 +46,12 @@ structure St where
   histC  : Array String := #[]
   rrC    : String := ""
   rrN    : Nat := 0
+  devDirty : List Nat := []   -- devices whose cached rendering is stale (rendered again when a snapshot is needed)
   -- the process was killed (SIGKILL) somewhere inside the last operation: its single disk write either
   -- happened or not. `srv` holds the state with the write, `alt` the state without it; the next start decides.
   alt    : Option State := none
+  -- a sync round that is held inside a failed attempt while another round runs: attempts left, servers failed so far
+  clPend : Option (Nat × List Bytes × Bytes) := none
   quiet  : Bool := false
 
 def mkV (o : Std.HashMap String Bool) (dflt : Bool) : Verify :=
@@ -131,11 +134,9 @@ def touched : Op → Option (List Nat)
 
 def refresh (st : St) (old : State) (op : Option Op) : St :=
   let s := st.srv
-  let devC := match op.bind touched with
-    | some ids => ids.foldl (fun (c : Std.HashMap Nat String) id => match FMap.get s.devices id with
-        | some d => c.insert id (dev id d)
-        | none => c.erase id) st.devC
-    | none => s.devices.foldl (fun (c : Std.HashMap Nat String) p => c.insert p.1 (dev p.1 p.2)) {}
+  let (devC, devDirty) := match op.bind touched with
+    | some ids => (st.devC, ids ++ st.devDirty)
+    | none => (s.devices.foldl (fun (c : Std.HashMap Nat String) p => c.insert p.1 (dev p.1 p.2)) {}, [])
   let histC := if s.history.length == st.histC.size && op.isSome then st.histC
     else if s.history.length == st.histC.size + 1 && op.isSome then
       match s.history.getLast? with | some w => st.histC.push (week w) | none => st.histC
@@ -147,7 +148,16 @@ def refresh (st : St) (old : State) (op : Option Op) : St :=
       | some r => ((if st.rrN == 0 then "" else st.rrC ++ ",") ++ hexOfBytes (Report.encode r), st.rrN + 1)
       | none => (st.rrC, st.rrN)
     else (joinWith "," (s.recentR.map (fun r => hexOfBytes (Report.encode r))), s.recentR.length)
-  { st with devC := devC, histC := histC, rrC := rrC, rrN := rrN }
+  { st with devC := devC, devDirty := devDirty, histC := histC, rrC := rrC, rrN := rrN }
+
+/-- Render the devices an operation touched since the last snapshot. -/
+def flushDev (st : St) : St :=
+  if st.devDirty.isEmpty then st else
+  let s := st.srv
+  let devC := st.devDirty.eraseDups.foldl (fun (c : Std.HashMap Nat String) id => match FMap.get s.devices id with
+      | some d => c.insert id (dev id d)
+      | none => c.erase id) st.devC
+  { st with devC := devC, devDirty := [] }
 
 /-- Same text as `Canon.snapshot`, assembled from the caches. -/
 def snapshotC (st : St) : String :=
@@ -193,6 +203,7 @@ def handleSrvOp (st : St) (kind : String) (a : Args) (obs : String) : IO St := d
     match obsHash with
     | none => return st
     | some h =>
+      let st := flushDev st
       let m := snapshotC st
       if sameObs m h then return st else report st (kind ++ ":state-after") ("#" ++ hex64 (fnv64 m)) h
 
@@ -230,6 +241,7 @@ def handleSrv (st : St) (kind : String) (a : Args) (obs : String) : IO St := do
         if a2.mism == st.mism then return { a2 with quiet := false } else
         handleSrvOp base kind a obs
   | "srv.snap" =>
+    let st := flushDev st
     let m := snapshotC st
     if sameObs m obs then return st else report st kind m obs
   | "srv.disk" =>
@@ -250,6 +262,7 @@ def handleSrv (st : St) (kind : String) (a : Args) (obs : String) : IO St := do
     match obsHash with
     | none => return st
     | some h =>
+      let st := flushDev st
       let m := snapshotC st
       if sameObs m h then return st else report st (kind ++ ":state-after") ("#" ++ hex64 (fnv64 m)) h
   | "srv.tcpshort" | "srv.noeffect" =>
@@ -264,6 +277,7 @@ def handleSrv (st : St) (kind : String) (a : Args) (obs : String) : IO St := do
     match obsHash with
     | none => return st
     | some h =>
+      let st := flushDev st
       let m := snapshotC st
       if sameObs m h then return st else report st (kind ++ ":state-after") ("#" ++ hex64 (fnv64 m)) h
   | "srv.shutdown" =>
@@ -510,6 +524,49 @@ def handleCl (st : St) (kind : String) (a : Args) (obs : String) : IO St := do
       let disk := s!"gca={hx c'.diskGCA} id={c'.diskShortId} servers={canonCServers c'.diskServers}"
       let m := s!"{res} lockfree=1 sigs=true gk={hx c'.gcaKey} id={c'.shortId} servers={canonCServers c'.servers} disk=[{disk}] resent={joinWith "," (resent.map (fun r => s!"{r.ts}.{r.energy}"))}"
       if m == obs then return st else report st kind m obs
+  | "cl.round.begin" =>
+    -- a round starts and is held inside its first attempt(s), all of which will fail
+    match st.cl with
+    | none => report st kind "no-client" obs
+    | some c =>
+      let keys := ((arg a "choices").splitOn ";").filterMap (fun ch => match ch.splitOn ":" with
+        | [k, "fail"] => (bytesOfHex k)
+        | _ => none)
+      let (c', out) := Cl.attempts c 5 [] (keys.map (fun k => (k, Cl.Attempt.fail)))
+      -- the round reads the GCA key once, when it starts, and checks every reply of the round against that key
+      let st := { st with cl := some c', clPend := some (5 - keys.length, keys.reverse, c.gcaKey) }
+      match out with
+      | .badChoice => report st kind "eligible-choice" "BADCHOICE"
+      | _ => return st
+  | "cl.round.end" =>
+    -- the held round goes on: it decides with the client's CURRENT knowledge (another round may have
+    -- adopted a reply meanwhile) and with the servers it has itself seen fail
+    match st.cl, st.clPend with
+    | some c, some (n, failed, gk0) =>
+      let c := { c with hist := st.hist }
+      let V : Cl.Verify := fun k m sg => (st.oracle.get? (hexOfBytes k ++ "|" ++ hexOfBytes m ++ "|" ++ hexOfBytes sg)).getD false
+      let now := argNat a "now"
+      let choices : List (Bytes × Cl.Attempt) := (if (arg a "choices").isEmpty then [] else (arg a "choices").splitOn ";").filterMap (fun ch =>
+        match ch.splitOn ":" with
+        | [k, "fail"] => some ((bytesOfHex k).getD [], Cl.Attempt.fail)
+        | [k, "ok", stream] =>
+          let key := (bytesOfHex k).getD []
+          let r := (Cl.readFramed ((bytesOfHex stream).getD [])).bind (fun resp => Cl.parseReply V c.pubKey gk0 key now resp)
+          some (key, match r with | some p => Cl.Attempt.ok p | none => Cl.Attempt.fail)
+        | _ => none)
+      let (c', out) := match Cl.attempts c n failed choices with
+        | (c1, .synced p k) => (Cl.adopt c1 p, Cl.RoundOut.synced p k)
+        | r => r
+      let st := { st with cl := some c', clPend := none }
+      let latest := argNat a "latest"
+      let (res, resent) := match out with
+        | .synced p _ => ("synced", Cl.resend c'.hist latest p.off p.bits)
+        | .badChoice => ("BADCHOICE", [])
+        | _ => ("failed", [])
+      let disk := s!"gca={hx c'.diskGCA} id={c'.diskShortId} servers={canonCServers c'.diskServers}"
+      let m := s!"{res} lockfree=1 sigs=true gk={hx c'.gcaKey} id={c'.shortId} servers={canonCServers c'.servers} disk=[{disk}] resent={joinWith "," (resent.map (fun r => s!"{r.ts}.{r.energy}"))}"
+      if m == obs then return st else report st kind m obs
+    | _, _ => report st kind "no-held-round" obs
   | "cl.restart" =>
     match st.cl with
     | none => report st kind "no-client" obs
